@@ -87,6 +87,37 @@ static std::string paramsLine(const ColoquinteParameters &p, int effort) {
   return os.str();
 }
 
+// Independent specification of the orientation a polarity prescribes in a row (written from the
+// documentation of CellRowPolarity in coloquinte.hpp, NOT calling the library's tables, so that a
+// wrong table entry in the library yields a concrete failing input and not only a broken theorem).
+static CellOrientation specOpposite(CellOrientation o) {
+  switch (o) {  // mirror about the x axis: N<->FS, S<->FN, E<->FW, W<->FE
+    case CellOrientation::N: return CellOrientation::FS;
+    case CellOrientation::FS: return CellOrientation::N;
+    case CellOrientation::S: return CellOrientation::FN;
+    case CellOrientation::FN: return CellOrientation::S;
+    case CellOrientation::E: return CellOrientation::FW;
+    case CellOrientation::FW: return CellOrientation::E;
+    case CellOrientation::W: return CellOrientation::FE;
+    case CellOrientation::FE: return CellOrientation::W;
+    default: return CellOrientation::INVALID;
+  }
+}
+static CellOrientation specOrientationInRow(CellRowPolarity pol, CellOrientation row) {
+  switch (pol) {
+    case CellRowPolarity::ANY: return CellOrientation::UNKNOWN;
+    case CellRowPolarity::SAME: return row;
+    case CellRowPolarity::OPPOSITE: return specOpposite(row);
+    case CellRowPolarity::NW:
+      return (row == CellOrientation::N || row == CellOrientation::FN || row == CellOrientation::W || row == CellOrientation::FW)
+                 ? row : CellOrientation::INVALID;
+    case CellRowPolarity::SE:
+      return (row == CellOrientation::S || row == CellOrientation::FS || row == CellOrientation::E || row == CellOrientation::FE)
+                 ? row : CellOrientation::INVALID;
+  }
+  return CellOrientation::INVALID;
+}
+
 struct Case {
   std::string id;
   Circuit circ{0};
@@ -302,7 +333,7 @@ static void checkOrientations(const Circuit &c, const std::vector<CellOrientatio
     SegRef s = segmentUnder(c, i);
     if (!s.found) { ck.skippedNoSegment++; continue; }  // illegal placement: C01/C02's matter
     ck.checkedPolarised++;
-    CellOrientation want = cellOrientationInRow(pol, s.orient);
+    CellOrientation want = specOrientationInRow(pol, s.orient);
     if (want == CellOrientation::INVALID || cur != want) {
       std::ostringstream os;
       os << when << ": cell " << i << " polarity " << toString(pol) << " at (" << c.cellX()[i] << "," << c.cellY()[i]
